@@ -463,7 +463,7 @@ func runC15(c *fw.Ctx) {
 		for l := 0; l < gen.NumLayouts; l++ {
 			layouts = append(layouts, gen.Layout{Kind: l, R: r})
 		}
-		if i%40 == 7 {
+		if (c.Quick && i%40 == 7) || i%400 == 7 {
 			// one or two comments that make a line longer than 65 536 characters
 			gaps := map[int]bool{r.Intn(8): true, r.Intn(40): true}
 			layouts = append(layouts, gen.Layout{Kind: gen.LayoutLongLine, R: r, Gaps: gaps, Fill: 65500 + r.Intn(70000)})
